@@ -1,3 +1,8 @@
--- This module serves as the root of the `Prism` library.
--- Import modules here that should be built as part of the library.
-import Prism.Basic
+-- Root of the `Prism` library: every module that `lake build Prism` must check.
+import Prism.Float.SF
+import Prism.Model.Tables
+import Prism.Model.Color
+import Prism.Model.Util
+import Prism.Check.C01
+import Prism.Spec.Curves
+import Prism.Proofs.C01
